@@ -181,7 +181,13 @@ func (u *Unit) oblige(fr *Frame, s *State, class, detail, goal string, pos token
 var panicClass = map[string]bool{"nil": true, "assert": true, "idx": true, "div": true, "nilmap": true, "ifaceeq": true, "libpre": true, "panic": true,
 	"closedsend": true, "doubleclose": true}
 
+// repoRootDir: the repository the engine was loaded from (source positions are reported relative to it)
+var repoRootDir string
+
 func shortFile(f string) string {
+	if repoRootDir != "" && strings.HasPrefix(f, repoRootDir+"/") {
+		return f[len(repoRootDir)+1:]
+	}
 	if i := strings.Index(f, "/repo/"); i >= 0 {
 		return f[i+6:]
 	}
@@ -212,6 +218,7 @@ type Frame struct {
 	backEdge                           map[[2]int]bool
 	loopOrd                            map[*ssa.BasicBlock]int
 	loopBody                           map[*ssa.BasicBlock]map[*ssa.BasicBlock]bool
+	idxEnums                           map[*ssa.BasicBlock]*idxEnum
 	entry                              *State
 	contract                           *Contract
 	defers                             []*ssa.Defer
@@ -231,6 +238,8 @@ type Frame struct {
 	nameVals                           map[string]ssa.Value
 	nameAddrs                          map[string]ssa.Value
 	lastKeyInfo                        keyInfo
+	lastSliceBase                      ssa.Value
+	loopTargets                        map[*ssa.BasicBlock]map[string][]ssa.Value
 	freshBase                          string
 	loopPreSt                          map[*ssa.BasicBlock]*State // state on entry of each loop (for atloop and allocation-age invariants)
 	loopPreEnv                         map[*ssa.BasicBlock]*Env
@@ -1650,6 +1659,29 @@ func (fr *Frame) explicitPanic(x *ssa.Panic, st *State) {
 		fr.panicked = append(fr.panicked, st.clone())
 		st.dead = true
 		return
+	}
+	// exceptional postconditions of the unit: what a caller that recovers the panic may rely on
+	top := fr
+	for top.parent != nil {
+		top = top.parent
+	}
+	if top.contract != nil && len(top.contract.OnPanic) > 0 && u.quantOK {
+		env := top.baseEnv()
+		for i, en := range top.contract.OnPanic {
+			g, why := func() (g string, why string) {
+				defer func() {
+					if r := recover(); r != nil {
+						if ee, ok := r.(evalError); ok {
+							g, why = "false", " [clause cannot be evaluated against this code: "+ee.msg+"]"
+							return
+						}
+						panic(r)
+					}
+				}()
+				return top.evalBool(en, env, st, top.entry), ""
+			}()
+			u.oblige(fr, st.clone(), "ppost", fmt.Sprintf("%d", i+1), g, x.Pos(), "onpanic "+en.src+why)
+		}
 	}
 	u.oblige(fr, st, "panic", "", "false", x.Pos(), "explicit panic reachable")
 	st.dead = true
